@@ -184,10 +184,29 @@ fn build_insert(v: &Value, keys: &mut Keys) -> InsertEntity {
 fn room_auth(sc: &Value, keys: &mut Keys) -> std::result::Result<RoomAuthorisations, String> {
     let caller = sc["caller"].as_str().unwrap();
     let seed = blake3::hash(caller.as_bytes());
+    // the size limit reproduces the relation (below / equal / above) between the row's REAL serialised size and the limit
+    let mut max_node_size = sc["max_node_size"].as_u64().unwrap_or(u64::MAX);
+    if let Some(rel) = sc.get("size_rel").and_then(|r| r.as_str()) {
+        let probe = if !sc["tree"].is_null() && !sc["tree"]["node"].is_null() {
+            Some(build_node(sc["tree"]["id"].as_str().unwrap_or(""), &sc["tree"]["node"], keys))
+        } else if !sc["node"].is_null() {
+            Some(build_node(sc["id"].as_str().unwrap_or(""), &sc["node"], keys))
+        } else {
+            None
+        };
+        if let Some(n) = probe {
+            let size = bincode::serialized_size(&n).unwrap();
+            max_node_size = match rel {
+                "gt" => size - 1,
+                "eq" => size,
+                _ => size + 1000,
+            };
+        }
+    }
     let mut ra = RoomAuthorisations {
         signing_key: Ed25519SigningKey::create_from(seed.as_bytes()),
         rooms: HashMap::new(),
-        max_node_size: sc["max_node_size"].as_u64().unwrap_or(u64::MAX),
+        max_node_size,
     };
     for r in sc["rooms"].as_array().unwrap() {
         let room = build_room(r, keys)?;
@@ -286,7 +305,7 @@ fn replay_validate_node(sc: &Value) -> Value {
         entity_name: sc["entity_name"].as_str().map(|x| x.to_string()),
         index: true,
         old_room_id: opt_uid(&sc["old_room"]),
-        old_mdate: 0,
+        old_mdate: sc["old_mdate"].as_i64().unwrap_or(0),
         old_verifying_key: sc["old_key"].as_str().map(|k| keys.vk(k)),
         old_local_id: None,
         old_fts_str: None,
@@ -1145,6 +1164,94 @@ fn replay_room_three_paths(sc: &Value) -> Value {
     })
 }
 
+// ---- C01: room mutation
+fn user_json(keys: &mut Keys, k: &str, enabled: bool) -> String {
+    format!("{{\"32\":\"{}\",\"33\":{}}}", crate::security::base64_encode(&keys.vk(k)), enabled)
+}
+fn leaf(keys: &mut Keys, name: &str, json: String, mdate: i64, author: &Vec<u8>) -> InsertEntity {
+    let id = uid(&format!("{}{}", name, mdate));
+    InsertEntity {
+        name: name.to_string(),
+        node_to_mutate: NodeToMutate {
+            id,
+            date: mdate,
+            entity: "sys.UserAuth".to_string(),
+            room_id: None,
+            node: Some(Node { id, room_id: None, cdate: mdate, mdate, _entity: "0.2".to_string(), _json: Some(json), _binary: None,
+                              verifying_key: author.clone(), _signature: vec![], _local_id: None }),
+            node_fts_str: None,
+            old_node: None,
+            old_fts_str: None,
+            enable_full_text: true,
+        },
+        edge_deletions: vec![],
+        edge_deletions_log: vec![],
+        edge_insertions: vec![],
+        sub_nodes: HashMap::new(),
+    }
+}
+fn replay_room_mutation(sc: &Value) -> Value {
+    let mut keys = Keys::new();
+    let ra = match room_auth(sc, &mut keys) {
+        Ok(r) => r,
+        Err(e) => return json!({"status": "precondition", "detail": e}),
+    };
+    let caller = keys.vk(sc["caller"].as_str().unwrap());
+    let date = i(&sc["date"]);
+    let update = sc["mode"].as_str().unwrap() == "update";
+    let rid = if update { uid(sc["rooms"][0]["id"].as_str().unwrap()) } else { uid("a-new-room") };
+    let mk_node = |id: Uid, ent: &str, mdate: i64, author: &Vec<u8>| Node { id, room_id: None, cdate: mdate, mdate, _entity: ent.to_string(), _json: Some("{}".to_string()),
+        _binary: None, verifying_key: author.clone(), _signature: vec![], _local_id: None };
+    let mut subs: HashMap<String, Vec<InsertEntity>> = HashMap::new();
+    let mut admins = vec![];
+    for a in sc["admins"].as_array().unwrap() {
+        let j = user_json(&mut keys, a[0].as_str().unwrap(), b(&a[2]));
+        admins.push(leaf(&mut keys, "admin", j, i(&a[1]), &caller));
+    }
+    if !admins.is_empty() {
+        subs.insert("admin".to_string(), admins);
+    }
+    let mut auths = vec![];
+    for (gname, g) in sc["groups"].as_object().unwrap() {
+        let existing = sc["group"].as_str().unwrap() == "existing";
+        let gid = uid(gname);
+        let mut gsubs: HashMap<String, Vec<InsertEntity>> = HashMap::new();
+        let mut v = vec![];
+        for r in g["rights"].as_array().unwrap() {
+            let j = format!("{{\"32\":\"{}\",\"33\":{},\"34\":{}}}", r[0].as_str().unwrap(), b(&r[2]), b(&r[3]));
+            v.push(leaf(&mut keys, "rights", j, i(&r[1]), &caller));
+        }
+        if !v.is_empty() { gsubs.insert("rights".to_string(), v); }
+        for (fld, key) in [("users", "users"), ("user_admin", "user_admins")] {
+            let mut v = vec![];
+            for a in g[key].as_array().unwrap() {
+                let j = user_json(&mut keys, a[0].as_str().unwrap(), b(&a[2]));
+                v.push(leaf(&mut keys, fld, j, i(&a[1]), &caller));
+            }
+            if !v.is_empty() { gsubs.insert(fld.to_string(), v); }
+        }
+        auths.push(InsertEntity {
+            name: "authorisations".to_string(),
+            node_to_mutate: NodeToMutate { id: gid, date, entity: "sys.Authorisation".to_string(), room_id: None, node: Some(mk_node(gid, "0.1", date, &caller)),
+                node_fts_str: None, old_node: if existing { Some(mk_node(gid, "0.1", 0, &caller)) } else { None }, old_fts_str: None, enable_full_text: true },
+            edge_deletions: vec![], edge_deletions_log: vec![], edge_insertions: vec![], sub_nodes: gsubs,
+        });
+    }
+    if !auths.is_empty() {
+        subs.insert("authorisations".to_string(), auths);
+    }
+    let mut ie = InsertEntity {
+        name: "room".to_string(),
+        node_to_mutate: NodeToMutate { id: rid, date, entity: "sys.Room".to_string(), room_id: None, node: Some(mk_node(rid, "0.0", date, &caller)), node_fts_str: None,
+            old_node: if update { Some(mk_node(rid, "0.0", 0, &caller)) } else { None }, old_fts_str: None, enable_full_text: true },
+        edge_deletions: vec![], edge_deletions_log: vec![], edge_insertions: vec![], sub_nodes: subs,
+    };
+    match ra.validate_room_mutation(&mut ie, &caller) {
+        Ok(r) => json!({"status": "done", "result": "Ok", "room": r.is_some()}),
+        Err(e) => json!({"status": "done", "result": "Err", "error": format!("{}", e)}),
+    }
+}
+
 pub fn dispatch(sc: &Value) -> Value {
     match sc["kind"].as_str().unwrap_or("") {
         "entity_mutation" => replay_entity_mutation(sc),
@@ -1153,6 +1260,12 @@ pub fn dispatch(sc: &Value) -> Value {
         "c12_mutation" => replay_c12_mutation(sc),
         "daily_marks" => replay_daily_marks(sc),
         "bytes_decoder" => replay_bytes_decoder(sc),
+        "room_mutation" => replay_room_mutation(sc),
+        "date_fn" => {
+            let d = i(&sc["date"]);
+            let r = if sc["fn"].as_str().unwrap() == "date" { crate::date_utils::date(d) } else { crate::date_utils::date_next_day(d) };
+            json!({"status": "done", "result": "Ok", "value": r})
+        }
         "room_three_paths" => replay_room_three_paths(sc),
         "rooms_for_peer" => replay_rooms_for_peer(sc),
         "local_event_admission" => replay_local_event_admission(sc),
